@@ -47,6 +47,7 @@ else:
 
 from . import aggregation_layer
 from . import categorical_calibration_layer
+from . import cdf_layer
 from . import configs
 from . import kronecker_factored_lattice_layer as kfll
 from . import lattice_layer
@@ -533,6 +534,8 @@ def get_custom_objects(custom_objects=None):
           CalibratedLinear,
       'CalibratedLinearConfig':
           configs.CalibratedLinearConfig,
+      'CDF':
+          cdf_layer.CDF,
       'CategoricalCalibration':
           categorical_calibration_layer.CategoricalCalibration,
       'CategoricalCalibrationConstraints':
